@@ -100,6 +100,9 @@ def _gen_flight(rng, prim, tier):
         scripts.append([_op(1)])
     gates, sched = [], []
     nextgate = 1
+    cchoices = rng.choice([[0, 0, 0, 0, 0, 1, 2, 3], [3], [0, 3, 3], [0, 0, 0, 1, 2]])   # all / some / no resource fails to close
+    if prim == "rm" and closer is not None:
+        nkeys = rng.choice([2, 3, 3])
     for t in range(g):
         for i in range(rng.randint(1, 4)):
             gate = 0
@@ -112,7 +115,7 @@ def _gen_flight(rng, prim, tier):
             if prim in ("sf", "lc") and rng.random() < 0.18:
                 val = 0                       # the user fn panics (after its gate)
             if prim == "rm":
-                scripts[t].append(_op(0, key, gate, rng.choice([0, 0, 0, 0, 0, 1, 2])))   # 1: create fails, 2: create panics
+                scripts[t].append(_op(0, key, gate, rng.choice(cchoices)))   # 1: create fails, 2: create panics, 3: the resource's Close() fails
             else:
                 scripts[t].append(_op(rng.choice([0, 0, 1]) if prim == "sf" else 0, key, gate, val))
     closed = set()
@@ -260,6 +263,24 @@ def _gen_pool(rng, tier):
         sched += [_t(0), _t(1), {"k": "o", "v": 1}]
         do_get(0)
         do_get(1)
+    elif g >= 3 and rng.random() < 0.35:
+        # a SECOND and THIRD Get arrive while the first create is still running (limit 1 and 2 especially):
+        # who of them proceeds first afterwards is up to the mutex, so only the history is checked
+        n = rng.choice([1, 1, 2, 2, n])
+        k = rng.randint(2, min(3, g - 1))
+        scripts[0].append(_op(0, 0, 1, 0))
+        sched.append(_t(0))
+        for u in range(1, k + 1):
+            scripts[u].append(_op(0, 0, rng.choice([0, 0, 2]), 0))
+            sched.append(_t(u))
+        sched += [{"k": "o", "v": 1}, {"k": "o", "v": 2}]
+        for u in range(0, k + 1):
+            for _ in range(rng.randint(0, 2)):
+                scripts[u].append(_op(rng.choice([0, 1, 1])))
+        for _ in range(3):
+            for u in range(0, k + 1):
+                sched.append(_t(u))
+        return {"prim": "pool", "n": n, "m": maxage, "scripts": scripts, "sched": sched, "spec_only": True}
 
     for _ in range(rng.randint(10, 36)):
         if maxage and rng.random() < 0.3:
@@ -360,7 +381,26 @@ def _gen_free(rng, prim):
     return {"prim": prim, "n": 0, "m": 0, "scripts": scripts, "sched": sched, "free": True, "seed": rng.randrange(1 << 30)}
 
 
+def _gen_lc_chain(rng):
+    """calls on ONE key, staggered: each next call arrives while its predecessor runs (or queue up two at a time)"""
+    k = rng.randint(3, 6)
+    scripts = [[_op(0, 1, i + 1, 100 * (i + 1) + 1 if rng.random() > 0.15 else 0)] for i in range(k)]
+    sched = [_t(0), _t(1)]
+    nxt = 2
+    if rng.random() < 0.5 and k >= 4:
+        sched.append(_t(2))
+        nxt = 3
+    for i in range(k):
+        sched.append({"k": "o", "v": i + 1})
+        if nxt < k:
+            sched.append(_t(nxt))
+            nxt += 1
+    return {"prim": "lc", "n": 0, "m": 0, "scripts": scripts, "sched": sched}
+
+
 def _gen_one(rng, prim, tier):
+    if prim == "lc" and rng.random() < 0.3:
+        return _gen_lc_chain(rng)
     if prim in ("sf", "lc", "bar", "rm", "pool") and rng.random() < 0.3:
         return _gen_free(rng, prim)
     if prim in ("sf", "lc", "bar", "rm"):
@@ -409,6 +449,26 @@ def _directed():
     out.append({"prim": "pool", "n": 2, "m": 10,
                 "scripts": [[_op(0, 0, 1, 0), _op(1), _op(0, 0, 0, 1), _op(0)], [_op(0, 1, 0, 0), _op(0), _op(1)]],
                 "sched": [_t(0), _t(1), g1, _t(1), _t(0), {"k": "a", "v": 50}, _t(0), _t(0), _t(1)]})
+    # Gets arriving while a create callback is still running, limit 1 and 2 (history check only)
+    for lim in (1, 2):
+        out.append({"prim": "pool", "n": lim, "m": 0, "spec_only": True,
+                    "scripts": [[_op(0, 0, 1, 0), _op(1)], [_op(0, 0, 2, 0), _op(1)], [_op(0, 0, 2, 0), _op(1)]],
+                    "sched": [_t(0), _t(1), _t(2), g1, {"k": "o", "v": 2}, _t(0), _t(1), _t(2), _t(0), _t(1), _t(2)]})
+    # Close with resources whose own Close() fails: all of them / some of them
+    out.append({"prim": "rm", "n": 0, "m": 0,
+                "scripts": [[_op(0, 1, 0, 3), _op(0, 2, 0, 3), _op(0, 3, 0, 3), _op(0, 4, 0, 3)], [_op(1)]],
+                "sched": [_t(0), _t(0), _t(0), _t(0), _t(1)]})
+    out.append({"prim": "rm", "n": 0, "m": 0,
+                "scripts": [[_op(0, 1, 0, 3), _op(0, 2, 0, 0), _op(0, 3, 0, 3)], [_op(0, 4, 0, 0), _op(0, 5, 0, 3), _op(0, 1, 0, 0)], [_op(1)]],
+                "sched": [_t(0), _t(1), _t(0), _t(1), _t(0), _t(1), _t(2)]})
+    # LockedCalls, three staggered calls on one key: B queues behind A; C arrives after A finished, while B runs
+    out.append({"prim": "lc", "n": 0, "m": 0,
+                "scripts": [[_op(0, 1, 1, 101)], [_op(0, 1, 2, 201)], [_op(0, 1, 0, 301)]],
+                "sched": [_t(0), _t(1), g1, _t(2), {"k": "o", "v": 2}]})
+    # ... and with two calls queued behind A, plus a fourth arriving while the first of them runs
+    out.append({"prim": "lc", "n": 0, "m": 0,
+                "scripts": [[_op(0, 1, 1, 101)], [_op(0, 1, 2, 201)], [_op(0, 1, 3, 301)], [_op(0, 1, 0, 401)]],
+                "sched": [_t(0), _t(1), _t(2), g1, _t(3), {"k": "o", "v": 2}, {"k": "o", "v": 3}]})
     # create panics inside the flight; Close while a create is in flight
     out.append({"prim": "rm", "n": 0, "m": 0,
                 "scripts": [[_op(0, 1, 1, 2), _op(0, 1, 0, 0)], [_op(0, 1, 0, 0)], [_op(0, 2, 2, 0)], [_op(1)]],
@@ -431,6 +491,31 @@ def generate(rng, tier, n):
             prim = rng.choice(["sf", "lc", "pool", "rm"])   # keep the real-time cases few
         cases.append(_gen_one(rng, prim, tier))
     return cases[:n] if n >= len(_directed()) else cases
+
+
+def drive(cases, tier):
+    """Run the driver; if the test process dies (e.g. the Go runtime's unrecoverable
+    'unlock of unlocked mutex'), isolate the fatal cases so that the others still yield histories."""
+    import vlib
+    obs, log = vlib.run_driver(GO_PKG, cases, name=ID + tier[:1], timeout=DRIVER_TIMEOUT)
+    if obs is not None or not cases:
+        return obs, log
+    out, logs = [], [log[-1500:]]
+
+    def run(chunk, depth):
+        o, lg = vlib.run_driver(GO_PKG, chunk, name="%s%s_iso" % (ID, tier[:1]), timeout=120)
+        if o is not None:
+            return o
+        if len(chunk) == 1:
+            logs.append(lg[-600:])
+            return [{"hist": [], "results": [], "stuck": -2, "timeouts": 0, "crashed": 1}]
+        mid = len(chunk) // 2
+        return run(chunk[:mid], depth + 1) + run(chunk[mid:], depth + 1)
+
+    step = 24
+    for i in range(0, len(cases), step):
+        out += run(cases[i:i + step], 0)
+    return out, "\n".join(logs)
 
 
 def search(rng, problems):
@@ -476,7 +561,7 @@ def encode(case, obs):
         if k == 0:
             seen[t] = seen.get(t, 0) + 1
         hist.append("mkev %s %s %s %s %s %s" % (_n(t), _KIND[k], _n(op), _n(a), _n(b), _n(c)))
-    return "mkcase %s %s %s %s %s %s %s" % (cnat(PRIM_NO[prim] + (100 if case.get("free") else 0)), _n(case["n"]), _n(case["m"]), clist(scripts),
+    return "mkcase %s %s %s %s %s %s %s" % (cnat(PRIM_NO[prim] + (100 if (case.get("free") or case.get("spec_only")) else 0)), _n(case["n"]), _n(case["m"]), clist(scripts),
                                            clist(sched), clist(results), clist(hist))
 
 
@@ -507,6 +592,8 @@ def bucket(case, obs):
         out.append("QUIESCE-TIMEOUT")
     if obs.get("stuck"):
         out.append("STUCK")
+    if obs.get("crashed"):
+        out.append("DRIVER-PROCESS-DIED")
     h = obs.get("hist", [])
     if case["prim"] == "sf" and any(e[1] == 1 and e[5] == 0 for e in h):
         out.append("sf:shared")
@@ -526,6 +613,10 @@ def bucket(case, obs):
         out.append("pool:callback-panicked")
     if case["prim"] == "ref" and any(e[1] == 1 and e[2] == 1 and e[3] == 2 for e in h):
         out.append("ref:callback-panicked")
+    if case["prim"] == "rm" and any(e[1] == 3 and e[2] == 1 and e[5] == 1 for e in h):
+        out.append("rm:close-error")
+    if case.get("spec_only"):
+        out.append("history-only")
     if any(e[0] == 1000 for e in h):
         out.append("drained")
     return out
